@@ -385,13 +385,19 @@ def spaces(tier, variant, seed):
             for num in (-3, -1, 0, 1, 3):
                 FVs.add(Fraction(b) + Fraction(num, 2))
                 FVs.add(Fraction(b) + Fraction(num, 1 << 70))
+    for e_ in (1074, 1073, 1072, 1023, 1022, 1021, 1020):
+        for m_ in (1, 3, (1 << 52) - 1, (1 << 52) + 1):
+            FVs.add(Fraction(m_, 1 << e_))
+            FVs.add(Fraction(-m_, 1 << e_))
+    FVs.add(Fraction(1, 1 << 1022) - Fraction(1, 1 << 1074))
+    FVs.add(Fraction(1, 1 << 1100))
     FV = sorted(FVs)
     if variant == "asan":
         FV = FV[::6]
 
-    def fset(e, idx, v):
+    def fset(e, idx, v, pad=0):
         f = e["f"][2048][idx]
-        f.set_frac(v)
+        f.set_frac(v, pad)
         return f
 
     def fc_cases(blk):
@@ -410,15 +416,36 @@ def spaces(tier, variant, seed):
             if abs(v).bit_length() < 200:
                 yield ("fz", a.numerator, a.denominator, v, 1)
         yield ("fg", a.numerator, a.denominator, 0, 1)
+        # non-minimal representations: every comparison against the values that are EQUAL or adjacent
+        if a != 0 and a.numerator.bit_length() - a.denominator.bit_length() < 1500:
+            yield ("ffP", a.numerator, a.denominator, a.numerator, a.denominator)
+            for d in DV:
+                fd = Fraction(d) if not math.isinf(d) else None
+                if fd is not None and (fd == a or abs(fd - a) <= abs(a) / 1000):
+                    yield ("fdP", a.numerator, a.denominator, d, 1)
+            if a.denominator == 1:
+                v = a.numerator
+                for w in (v - 1, v, v + 1):
+                    if 0 <= w <= M:
+                        yield ("fuP", a.numerator, a.denominator, w, 1)
+                    if LMIN <= w <= LMAX:
+                        yield ("fsP", a.numerator, a.denominator, w, 1)
+                    yield ("fzP", a.numerator, a.denominator, w, 1)
+            yield ("fgP", a.numerator, a.denominator, 0, 1)
 
     def fc_one(case, R):
         kind, an, ad, b, bd = case
         e = env()
         a = Fraction(an, ad)
-        fa = fset(e, 0, a)
+        pad = 0
+        if kind.endswith("P"):
+            # the same value stored with low zero limbs (as mpf_set_d, mpf_mul, mpf_div, mpf_sub leave them)
+            kind = kind[:-1]
+            pad = 1 + (an & 1)
+        fa = fset(e, 0, a, pad)
         if kind == "ff":
             bb = Fraction(b, bd)
-            fb = fset(e, 1, bb)
+            fb = fset(e, 1, bb, pad and 2)
             r = f_fcmp(fa.p, fb.p)
             if s3(r) != s3(a - bb):
                 R.fail("mpf_cmp", "cmp(%s,%s) = %d" % (a, bb, r))
